@@ -169,10 +169,10 @@ Qed.
 
 Lemma merge_result_one : forall f res l s resp rd,
   rs_err res = false -> rs_body res = BJson resp -> valid_numbers resp = true -> count_bad f resp = false ->
-  get_loc (f_datapath f) resp = Some rd -> is_nullish (Some rd) = false ->
+  get_loc (f_datapath f) resp = Some rd -> is_nullish (Some rd) = false -> wrong_kind_single f rd = false ->
   exists s1, ls_data s1 = ls_data s /\ ls_hard s1 = ls_hard s /\ ls_errored s1 = ls_errored s /\ merge_result f res [l] None s = merge_target f s1 l rd.
 Proof.
-  intros f res l s resp rd He Hb Hv Hcb Hg Hn. unfold merge_result. unfold count_bad in Hcb. rewrite He, Hb, Hv. cbn [negb]. rewrite Hcb, Hg, Hn.
+  intros f res l s resp rd He Hb Hv Hcb Hg Hn Hwk. unfold merge_result. unfold count_bad in Hcb. rewrite He, Hb, Hv. cbn [negb]. rewrite Hcb, Hg, Hn, Hwk.
   eexists. split; [|split; [|split; [|reflexivity]]];
     destruct (match get_loc [PName k_errors] resp with Some (JArr (_ :: _)) => true | _ => false end); reflexivity.
 Qed.
@@ -180,11 +180,11 @@ Qed.
 Lemma merge_result_many : forall f res items bs s resp e es,
   rs_err res = false -> rs_body res = BJson resp -> valid_numbers resp = true -> count_bad f resp = false ->
   get_loc (f_datapath f) resp = Some (JArr (e :: es)) ->
-  items <> [] -> length bs = length (e :: es) ->
+  items <> [] -> length bs = length (e :: es) -> wrong_kind_batch f (e :: es) = false ->
   exists s1, ls_data s1 = ls_data s /\ ls_hard s1 = ls_hard s /\ ls_errored s1 = ls_errored s /\ merge_result f res items (Some bs) s = merge_buckets f s1 bs (e :: es).
 Proof.
-  intros f res items bs s resp e es He Hb Hv Hcb Hg Hne Hlen. unfold merge_result. unfold count_bad in Hcb. rewrite He, Hb, Hv. cbn [negb]. rewrite Hcb, Hg. cbn [is_nullish].
-  destruct items as [|l [|l2 r]]; [congruence| |]; rewrite Hlen, Nat.eqb_refl;
+  intros f res items bs s resp e es He Hb Hv Hcb Hg Hne Hlen Hwk. unfold merge_result. unfold count_bad in Hcb. rewrite He, Hb, Hv. cbn [negb]. rewrite Hcb, Hg. cbn [is_nullish].
+  destruct items as [|l [|l2 r]]; [congruence| |]; rewrite Hwk, Hlen, Nat.eqb_refl;
     (eexists; split; [|split; [|split; [|reflexivity]]];
      destruct (match get_loc [PName k_errors] resp with Some (JArr (_ :: _)) => true | _ => false end); reflexivity).
 Qed.
@@ -310,6 +310,8 @@ Section Unaff.
   Variable F : N -> option fault.
   Hypothesis Hloud : forall id k, F id = Some k -> loud (kind_of id) k = true.
   Hypothesis Hans : forall id rep, json_wf (fst (answer id rep)) = true.
+  (* an `_entities` item is an object or null (anything else is now an invalid response, mergeableData) *)
+  Hypothesis Hansm : forall id rep, obj_or_null (fst (answer id rep)) = true.
   Hypothesis Hroot : forall id, json_wf (fst (root_answer id)) = true.
   Hypothesis Hrobj : roots_are_objects root_answer.
   Hypothesis Hval : answers_valid answer root_answer.
@@ -380,7 +382,7 @@ Section Unaff.
       assert (HdF2 : ls_data sF2 = ls_data sF) by (subst sF2; destruct (rs_err res); reflexivity).
       assert (Hsm : ls_data (merge_result f res (select_items (ls_data sF) (f_path f)) batchF sF2) = ls_data sF).
       { subst res cl. specialize (Hloud _ _ EF). rewrite Hk in Hloud.
-        rewrite (proj1 (proj2 (loud_outcome answer root_answer f k _ _ _ _ _ sF2 Hrobj Hd Hloud HP))). exact HdF2. }
+        rewrite (proj1 (proj2 (loud_outcome answer root_answer f k _ _ _ _ _ sF2 Hrobj Hd Hloud (fun _ => ltac:(unfold mp_empty; rewrite Hmp; reflexivity)) HP))). exact HdF2. }
       destruct (Hsame _ Hsm) as [A B]. split; [exact A|]. split; [exact B|]. intros E. discriminate. }
     (* unfaulted: the clean response *)
     assert (HsD : sub_b (ls_data sF) D = true) by (eapply sub_trans; [exact (R_sub _ _ HR)|exact Hinfl0]).
@@ -398,7 +400,8 @@ Section Unaff.
       set (rd := fst (root_answer (f_id f))) in *.
       destruct (Hrobj (f_id f)) as (mr & Hmr). fold rd in Hmr.
       assert (Nl : is_nullish (Some rd) = false) by (rewrite Hmr; reflexivity).
-      destruct (merge_result_one f cl [] sF1 resp rd Herr Hbody Hvn Hcb Hrd Nl) as (s1 & Es1 & Eh1 & Ee1 & Emr).
+      assert (Hwk : wrong_kind_single f rd = false) by (unfold wrong_kind_single; rewrite Hmr; apply andb_false_r).
+      destruct (merge_result_one f cl [] sF1 resp rd Herr Hbody Hvn Hcb Hrd Nl Hwk) as (s1 & Es1 & Eh1 & Ee1 & Emr).
       match goal with |- context [merge_result f cl ?it None sF1] => replace (merge_result f cl it None sF1) with (merge_target f s1 [] rd) by (symmetry; exact Emr) end.
       destruct (Hcont resp rd Herr Hbody Hrd [] eq_refl) as (w & Hw & Hrw).
       destruct (merge_target_facts f s1 [] rd D w Hmp) as (A1 & A2 & A3 & A4); try assumption.
@@ -426,7 +429,9 @@ Section Unaff.
         rewrite E1. destruct (Hsame sF1 Hd1) as [A B]. rewrite Hd1. split; [exact A|]. split; [exact B|].
         intros _ _. split; [rewrite E3; exact He1|]. intros _. split; [intros _; exact (Hone eq_refl)|]. rewrite Htg. intros l' src [E|[]]. inversion E; subst l' src.
         exists (JObj m). split; [exact Hgl|]. destruct rd; try discriminate. reflexivity.
-      + destruct (merge_result_one f cl l sF1 resp rd Herr Hbody Hvn Hcb Hrd Nl) as (s1 & Es1 & Eh1 & Ee1 & Emr).
+      + assert (Hwk : wrong_kind_single f rd = false).
+        { unfold wrong_kind_single. pose proof (Hansm (f_id f) b) as Ho. fold rd in Ho. destruct rd; try discriminate; apply andb_false_r. }
+        destruct (merge_result_one f cl l sF1 resp rd Herr Hbody Hvn Hcb Hrd Nl Hwk) as (s1 & Es1 & Eh1 & Ee1 & Emr).
         match goal with |- context [merge_result f cl ?it None sF1] => replace (merge_result f cl it None sF1) with (merge_target f s1 l rd) by (symmetry; exact Emr) end.
         destruct (Hcont resp rd Herr Hbody Hrd l eq_refl) as (w & Hw & Hrw).
         destruct (merge_target_facts f s1 l rd D w Hmp) as (A1 & A2 & A3 & A4); try assumption.
@@ -445,7 +450,12 @@ Section Unaff.
       { destruct bsF; [congruence|discriminate]. }
       assert (Hlen : length (map snd bsF) = length (e :: es)).
       { rewrite <- Eents. unfold ents. rewrite !map_length. reflexivity. }
-      destruct (merge_result_many f cl (select_items (ls_data sF) (f_path f)) (map snd bsF) sF1 resp e es Herr Hbody Hvn Hcb Hrd0 HneF Hlen) as (s1 & Es1 & Eh1 & Ee1 & Emr).
+      assert (Hwk : wrong_kind_batch f (e :: es) = false).
+      { unfold wrong_kind_batch. rewrite <- Eents. unfold ents.
+        assert (Hall : forallb obj_or_null (map (fun rep => fst (answer (f_id f) rep)) (map fst bsF)) = true).
+        { rewrite forallb_forall. intros x Hx. apply in_map_iff in Hx as (rep & <- & _). apply Hansm. }
+        rewrite Hall. apply andb_false_r. }
+      destruct (merge_result_many f cl (select_items (ls_data sF) (f_path f)) (map snd bsF) sF1 resp e es Herr Hbody Hvn Hcb Hrd0 HneF Hlen Hwk) as (s1 & Es1 & Eh1 & Ee1 & Emr).
       rewrite Emr.
       assert (Wents : forallb json_wf (e :: es) = true).
       { rewrite <- Eents. unfold ents. rewrite forallb_forall. intros x Hx. apply in_map_iff in Hx as (rep & <- & _). apply Hans. }
@@ -523,6 +533,8 @@ Section Three.
   Variable F : N -> option fault.
   Hypothesis Hloud : forall id k, F id = Some k -> loud (kind_of id) k = true.
   Hypothesis Hans : forall id rep, json_wf (fst (answer id rep)) = true.
+  (* an `_entities` item is an object or null (anything else is now an invalid response, mergeableData) *)
+  Hypothesis Hansm : forall id rep, obj_or_null (fst (answer id rep)) = true.
   Hypothesis Hroot : forall id, json_wf (fst (root_answer id)) = true.
   Hypothesis Hrobj : roots_are_objects root_answer.
   Hypothesis Hval : answers_valid answer root_answer.
@@ -554,7 +566,7 @@ Section Three.
     FI sF' /\ sub_b (ls_data sF) (ls_data sF') = true /\ (A (f_id f) = false -> big_facts answer root_answer f (ls_data sF) (ls_data sF')).
   Proof.
     intros f s0 sF HR (Wd & (m & Hm) & He) Hok Hstep Hc. cbv zeta. intros Hh.
-    destruct (F_step_facts answer root_answer kind_of F Hloud Hans Hroot Hrobj Hval f s0 sF HR Hok Hstep Wd (ex_intro _ m Hm)) as (Hinf & Wd' & Hbig).
+    destruct (F_step_facts answer root_answer kind_of F Hloud Hans Hansm Hroot Hrobj Hval f s0 sF HR Hok Hstep Wd (ex_intro _ m Hm)) as (Hinf & Wd' & Hbig).
     split; [|split; [exact Hinf|]].
     - split; [exact Wd'|]. split; [rewrite Hm in Hinf; apply (sub_obj_root _ _ Hinf)|].
       intros id Hid. destruct (A (f_id f)) eqn:Ea.
@@ -694,13 +706,14 @@ End Three.
 
 Lemma unaffected_lower_proof' : forall answer root_answer kind_of F (A : N -> bool) t,
   (forall id k, F id = Some k -> loud (kind_of id) k = true) ->
-  (forall id rep, json_wf (fst (answer id rep)) = true) -> (forall id, json_wf (fst (root_answer id)) = true) ->
+  (forall id rep, json_wf (fst (answer id rep)) = true) -> (forall id rep, obj_or_null (fst (answer id rep)) = true) ->
+  (forall id, json_wf (fst (root_answer id)) = true) ->
   roots_are_objects root_answer -> answers_valid answer root_answer ->
   (forall id k, F id = Some k -> A id = true) -> closed_in A t ->
   fplan_wf kind_of t = true -> consistent answer root_answer kind_of t = true ->
   ls_hard (run answer root_answer kind_of F t) = false ->
   sub_b (ls_data (run answer root_answer kind_of (knock A) t)) (ls_data (run answer root_answer kind_of F t)) = true.
 Proof.
-  intros answer root_answer kind_of F A t Hl Ha Hr Hro Hv HFA Hcl Hwf Hc Hh.
-  exact (unaffected_lower_proof answer root_answer kind_of F Hl Ha Hr Hro Hv A HFA t Hwf Hc Hcl Hh).
+  intros answer root_answer kind_of F A t Hl Ha Hm Hr Hro Hv HFA Hcl Hwf Hc Hh.
+  exact (unaffected_lower_proof answer root_answer kind_of F Hl Ha Hm Hr Hro Hv A HFA t Hwf Hc Hcl Hh).
 Qed.
